@@ -12,6 +12,7 @@ import traceback
 
 from .core import Ctx
 from .loader import AnalysisError
+from .terms import BudgetExceeded as T_Budget
 
 
 class AnalysisTimeout(Exception):
@@ -94,6 +95,9 @@ def _run_check(ctx, pid, tier):
             pass
     except RecursionError as e:
         err = "RecursionError: %s" % e
+    except T_Budget as e:
+        ctx._traces.clear()
+        err = "MemoryError: %s" % e
     except MemoryError:
         ctx._traces.clear()
         err = "MemoryError: the abstract evaluation exceeded the memory cap (case split blow-up)"
